@@ -365,7 +365,7 @@ impl Prop for C12 {
     }
 
     fn stages(&self, tier: Tier) -> Vec<Stage<Case>> {
-        let errs = vec(prop::sample::select(&ErrKind::ALL[..]), 1..=4);
+        let errs = vec(prop::sample::select(&ErrKind::ALL[..]), 2..=7);
         let writer = small_file().prop_map(|spec| Scenario::Writer { spec });
         let reader = (small_file(), vec(gen::probe(), 0..4), vec(range_strategy(), 0..2), vec(prefix_strategy(), 0..2))
             .prop_map(|(spec, probes, ranges, prefixes)| Scenario::Reader { spec, probes, ranges, prefixes });
